@@ -6,6 +6,7 @@ import (
 	"fmt"
 	"math/rand"
 	"sort"
+	"strings"
 	"time"
 
 	"github.com/evolbioinfo/goalign/align"
@@ -149,6 +150,9 @@ func c16(args []string) error {
 			s := flank(12) + string(b) + flank(12)
 			if reverse && r.Intn(3) == 0 {
 				s = revcompStr(s)
+			}
+			if r.Intn(25) == 0 { // unrelated: nothing aligns with a positive score
+				s = strings.Repeat("T", 6+r.Intn(4))
 			}
 			seqs[k] = s
 		}
